@@ -19,6 +19,10 @@ pub struct Case {
     /// >0: every retrieval is also made by this many threads at once (before and after the damage)
     #[serde(default)]
     pub threads: u8,
+    /// the victim is stored with a declared integrity that names, next to the correct hash, the
+    /// hash of the OTHER entry's bytes under a weaker algorithm (accepted: the strongest decides)
+    #[serde(default)]
+    pub weaker_hash_of_other: bool,
 }
 
 pub struct C01;
@@ -38,10 +42,13 @@ fn retrievals(bufs: &[usize]) -> Vec<Step> {
             if !(kind == XKind::HardLink && fl == Fl::Async) {
                 v.push(Step { op: Op::Extract { kind, checked: true, by: By::Addr(a), dest: Dest::Absent }, fl });
             }
-            // copying over an existing (longer or shorter) destination file
+            // copying over an existing (longer or shorter) destination file, and over a hard
+            // link of the entry's own content file
             if kind == XKind::Copy {
                 v.push(Step { op: Op::Extract { kind, checked: true, by: By::Key(0), dest: Dest::Existing }, fl });
                 v.push(Step { op: Op::Extract { kind, checked: true, by: By::Addr(a), dest: Dest::Existing }, fl });
+                v.push(Step { op: Op::Extract { kind, checked: true, by: By::Key(0), dest: Dest::LinkOfContent }, fl });
+                v.push(Step { op: Op::Extract { kind, checked: true, by: By::Addr(a), dest: Dest::LinkOfContent }, fl });
             }
             // a destination on another filesystem (a hard link cannot be made there)
             if kind != XKind::Reflink {
@@ -84,10 +91,10 @@ impl Engine for C01 {
             let blob = Blob::new(len, 100 + li as u64);
             let other = Blob::new(len.max(2) - 1, 200 + li as u64);
             for bit in 0..len * 8 {
-                out.push(Case { algo, blob: blob.clone(), other: other.clone(), dmg: CDamage::FlipBit(bit), bufs: vec![], threads: 0 });
+                out.push(Case { algo, blob: blob.clone(), other: other.clone(), dmg: CDamage::FlipBit(bit), bufs: vec![], threads: 0, weaker_hash_of_other: false });
             }
             for n in 0..len {
-                out.push(Case { algo, blob: blob.clone(), other: other.clone(), dmg: CDamage::Truncate(n), bufs: vec![3], threads: 0 });
+                out.push(Case { algo, blob: blob.clone(), other: other.clone(), dmg: CDamage::Truncate(n), bufs: vec![3], threads: 0, weaker_hash_of_other: false });
             }
         }
         // every algorithm sees every damage class once
@@ -108,7 +115,14 @@ impl Engine for C01 {
                 CDamage::SymlinkToDir,
                 CDamage::Delete,
             ] {
-                out.push(Case { algo, blob: blob.clone(), other: other.clone(), dmg, bufs: vec![1, 64], threads: 0 });
+                out.push(Case { algo, blob: blob.clone(), other: other.clone(), dmg, bufs: vec![1, 64], threads: 0, weaker_hash_of_other: false });
+            }
+        }
+        // the index names a weaker hash of the other entry next to the right one, and the content
+        // is replaced by exactly the other entry's bytes
+        for &algo in ALGOS.iter() {
+            for dmg in [CDamage::OtherBlob(1), CDamage::SwapWith(AddrRef { algo, blob: 1 }), CDamage::SymlinkToBlob(1)] {
+                out.push(Case { algo, blob: Blob::new(300, 7), other: Blob::new(300, 8), dmg, bufs: vec![64], threads: 0, weaker_hash_of_other: true });
             }
         }
         // several threads of one process ask for the same (pristine, then damaged) entry at once
@@ -121,15 +135,15 @@ impl Engine for C01 {
         .into_iter()
         .enumerate()
         {
-            out.push(Case { algo: ALGOS[i % 2], blob: Blob::new(len, 300 + i as u64), other: Blob::new(9, 400), dmg, bufs: vec![65536], threads: 6 });
+            out.push(Case { algo: ALGOS[i % 2], blob: Blob::new(len, 300 + i as u64), other: Blob::new(9, 400), dmg, bufs: vec![65536], threads: 6, weaker_hash_of_other: false });
         }
         // entries larger than what one file read delivers (2 MiB on tokio), read with ONE read_exact
         for (i, len) in [(2usize << 20) + 77, 5_000_000].into_iter().enumerate() {
-            out.push(Case { algo: ALGOS[i % 2], blob: Blob::new(len, 500 + i as u64), other: Blob::new(9, 402), dmg: CDamage::FlipBit(len * 8 - 3), bufs: vec![usize::MAX - 1], threads: 0 });
+            out.push(Case { algo: ALGOS[i % 2], blob: Blob::new(len, 500 + i as u64), other: Blob::new(9, 402), dmg: CDamage::FlipBit(len * 8 - 3), bufs: vec![usize::MAX - 1], threads: 0, weaker_hash_of_other: false });
         }
         // zero runs at the granularities sparse-file tricks work with
         for (i, (len, fill)) in [(131072usize, blob::Fill::Zero), (262144, blob::Fill::Zero), (393216, blob::Fill::ZeroTail), (196608, blob::Fill::ZeroTail), (65536, blob::Fill::Zero), (393216, blob::Fill::ZeroHead)].into_iter().enumerate() {
-            out.push(Case { algo: ALGOS[i % 5], blob: Blob { len, salt: 3, fill }, other: Blob::new(9, 401), dmg: CDamage::FlipBit(len * 8 - 1), bufs: vec![], threads: 0 });
+            out.push(Case { algo: ALGOS[i % 5], blob: Blob { len, salt: 3, fill }, other: Blob::new(9, 401), dmg: CDamage::FlipBit(len * 8 - 1), bufs: vec![], threads: 0, weaker_hash_of_other: false });
         }
         out
     }
@@ -144,8 +158,8 @@ impl Engine for C01 {
     }
     fn strategy(&self, tier: Tier) -> BoxedStrategy<Case> {
         let mix = tier.pick(SizeMix::Normal, SizeMix::Normal);
-        (gen::algo(), gen::blob(mix), gen::blob(SizeMix::Small), gen::cdamage(2), gen::bufs(), prop::bool::weighted(0.08))
-            .prop_map(|(algo, blob, mut other, mut dmg, bufs, threads)| {
+        (gen::algo(), gen::blob(mix), gen::blob(SizeMix::Small), gen::cdamage(2), gen::bufs(), prop::bool::weighted(0.08), prop::bool::weighted(0.15))
+            .prop_map(|(algo, blob, mut other, mut dmg, bufs, threads, weaker)| {
                 if other.bytes() == blob.bytes() {
                     other.len += 1;
                 }
@@ -155,7 +169,7 @@ impl Engine for C01 {
                     CDamage::SwapWith(a) => *a = AddrRef { algo, blob: 1 },
                     _ => {}
                 }
-                Case { algo, blob, other, dmg, bufs, threads: if threads { 4 } else { 0 } }
+                Case { algo, blob, other, dmg, bufs, threads: if threads { 4 } else { 0 }, weaker_hash_of_other: weaker }
             })
             .boxed()
     }
@@ -171,6 +185,12 @@ impl Engine for C01 {
             let mut w = WriteSpec::simple(Some(k), b);
             w.entry = WEntry::OneShotAlgo;
             w.algo = c.algo;
+            if c.weaker_hash_of_other && k == 0 {
+                // (the "other value of the pool" of blob 0 is blob 1)
+                w.entry = WEntry::Opts;
+                w.chunks = vec![orig.len() / 2];
+                w.integ = IntegDecl::MultiWeakerOfOther;
+            }
             let r = run_step(&ctx, &Step { op: Op::Write(w), fl: if (h >> k) & 1 == 0 { Fl::Sync } else { Fl::Async } });
             if !matches!(r.out, Out::Int(_)) {
                 return Err(format!("set-up write failed: {}", r.out.short()));
